@@ -40,7 +40,7 @@ FAILING = ["=inputs.missing", "=1/0 == 1", "=1/0", "=inputs.s + 1 == 2", '=split
 MSG_OK = [("not ready", "not ready"), ("waiting on x", "waiting on x"), ("m", "m"), ("=inputs.s", "str"),
           ('="a" + "b"', "ab"), ("=string(inputs.n)", "5"), ("=inputs.n", "5"), ("Resource: a/b, c.", "Resource: a/b, c."),
           ('=inputs.s + "-" + inputs.s', "str-str")]
-MSG_FAIL = ["=inputs.missing", "=1/0", '="a" + 1', '=split(inputs.s, "")[0]']
+MSG_FAIL = ["=inputs.missing", "=1/0", '="a" + 1', '=split(inputs.s, "")', "=to_ref({})"]
 # delays for the schema-bypassing path: (source, abstract)
 DELAY_ODD = [("=inputs.n", "5"), ("=1/0", "failed"), ("=inputs.missing", "failed"), ('="abc"', "notInt"), ("=1.5", "notInt"),
              ("=true", "notInt"), ('="12"', "12"), ("=0 - 4", "-4"), ("=[1]", "notInt")]
@@ -64,7 +64,7 @@ def gen_pred(r, i, mode, want=None, schema=True):
     kind = r.choice(KINDS) if schema or r.random() < 0.85 else "other"
     # message
     pm = r.random()
-    if mode == "clean" or pm < 0.8:
+    if mode == "clean" or pm < 0.92:
         msrc, mval = r.choice(MSG_OK)
     else:
         msrc, mval = r.choice(MSG_FAIL), None
@@ -115,6 +115,7 @@ def gen_list(r, schema=True, base=0, cap=20):
     if n and shape == "failmsg":
         i = r.randrange(n)
         ps[i]["msrc"], ps[i]["m"] = r.choice(MSG_FAIL), None
+        ps[i].pop("bare", None)
         if ps[i]["k"] == "ok" and schema:
             ps[i]["k"] = "skip"
     return ps, shape
@@ -404,13 +405,101 @@ BODY_VF = {"return": "ok", "null": "ok"}
 BODY_RF = {"return": "ok", "retry": "retry"}
 
 
-def run(tier: str) -> int:
-    import celpy
-    import koreo_util as ku
-    from koreo.cel.evaluation import evaluate_predicates
-    from koreo.cel.functions import koreo_function_annotations
-    from koreo.predicate_helpers import predicate_extractor
+class Impl:
+    """the real code, and the property's clauses evaluated on what it did"""
 
+    def __init__(self):
+        import celpy
+        import koreo_util as ku
+        from koreo.cel.evaluation import evaluate_predicates
+        from koreo.cel.functions import koreo_function_annotations
+        from koreo.predicate_helpers import predicate_extractor
+
+        self.env_mod = (celpy, ku, predicate_extractor, evaluate_predicates, koreo_function_annotations)
+        self.tracer = Tracer()
+
+    def run(self, mode, c):
+        if mode == "unit":
+            return run_unit(c["ps"], self.env_mod)
+        if mode == "vf":
+            return run_vf(c["ps"], self.tracer, c["ret"])
+        return run_rf(c["pre"], c["post"], c["crud"], self.tracer)
+
+    def safe_run(self, mode, c):
+        try:
+            return self.run(mode, c)
+        except Exception as e:  # nothing may escape
+            return {"c": "exception", "m": repr(e), "trace": []}
+
+    @staticmethod
+    def complaints(mode, c, got):
+        """the property's clauses on one observation; a description or None"""
+        if got["c"] == "exception":
+            return f"{mode}: an exception escaped: {got['m']}"
+        if got["c"].startswith("prepare-"):
+            return (f"{mode}: a schema-valid predicate list was rejected at prepare time: {got.get('m')}"
+                    if mode != "unit" else None)
+        if mode == "unit":
+            return judge(c["ps"], got, "unit")
+        if mode == "vf":
+            # the generated body always evaluates, so the Function is Ok exactly when the preconditions continued
+            body = [e for e in got["trace"] if e != "preconditions"]
+            o = dict(got)
+            if got["c"] == "ok":
+                o["c"] = "continue"
+            bad = judge(c["ps"], o, "vf")
+            if bad:
+                return bad
+            if c["ps"] and got["trace"][:1] != ["preconditions"]:
+                return f"vf: the preconditions were not evaluated first ({got['trace']})"
+            if o["c"] != "continue" and body:
+                return f"vf: outcome {got['c']} decided by the preconditions, yet {body} were evaluated"
+            if o["c"] == "continue" and c["ret"] and body != ["locals", "return"]:
+                return f"vf: preconditions continue but the body trace is {body}"
+            return None
+        # rf
+        pre, post, trace = c["pre"], c["post"], got["trace"]
+        e_pre = expected(pre)
+        if pre and trace[:1] != ["preconditions"]:
+            return f"rf: preconditions were not the first thing evaluated ({trace[:3]})"
+        after_pre = trace[1:] if pre else trace
+        if e_pre == "unconstrained":
+            return None
+        if e_pre != "continue":
+            bad = judge(pre, got, "rf preconditions")
+            if bad:
+                return bad
+            if after_pre:
+                return (f"rf: preconditions decided ({got['c']}) but {after_pre} happened afterwards "
+                        f"(cluster touched: {'api' in after_pre})")
+            return None
+        if "locals" not in after_pre or "api" not in after_pre:
+            return f"rf: preconditions continue but the function did not proceed ({trace}, outcome {got['c']} {got.get('m')!r})"
+        if c["crud"] == "createRetry":
+            if got["c"] != "retry" or "postconditions" in trace or "return" in trace:
+                return f"rf: create path gave {got['c']} with trace {trace}"
+            return None
+        if post and "postconditions" not in trace:
+            return f"rf: postconditions were not evaluated ({trace})"
+        if "postconditions" in trace and "api" in trace[trace.index("postconditions"):]:
+            return "rf: the cluster was touched after the postconditions"
+        e_post = expected(post)
+        ran_return = "return" in trace
+        if e_post == "unconstrained":
+            return None
+        if e_post == "continue":
+            if got["c"] != "ok" or not ran_return:
+                return f"rf: postconditions continue but outcome {got['c']} ({got.get('m')!r}), trace {trace}"
+            return None
+        bad = judge(post, got, "rf postconditions")
+        if bad:
+            return bad
+        if ran_return:
+            return f"rf: postconditions decided ({got['c']}) but `return` was evaluated"
+        return None
+
+
+def run(tier: str) -> int:
     ck = Check("C13", tier)
     ck.trusted = [
         "Lean 4.33.0 kernel; axioms of every theorem ⊆ {propext, Classical.choice, Quot.sound}",
@@ -432,9 +521,8 @@ def run(tier: str) -> int:
     ck.prove(extractors=["Predicates"])
 
     r = rng("c13")
-    tracer = Tracer()
+    impl = Impl()
     drv = LeanDriver("C13")
-    env_mod = (celpy, ku, predicate_extractor, evaluate_predicates, koreo_function_annotations)
 
     n_unit, n_vf, n_rf = (1500, 1100, 400) if tier == "quick" else (30000, 20000, 6000)
     cases = []  # (mode, payload)
@@ -443,7 +531,7 @@ def run(tier: str) -> int:
         cases.append(("unit", {"ps": ps, "shape": shape}))
     for _ in range(n_vf):
         ps, shape = gen_list(r, schema=True)
-        cases.append(("vf", {"ps": ps, "shape": shape, "ret": r.random() < 0.85}))
+        cases.append(("vf", {"ps": ps, "shape": shape, "ret": r.random() < 0.85 or not ps}))
     for _ in range(n_rf):
         where = r.choice(["pre", "post", "both"])
         pre, s1 = gen_list(r, schema=True, cap=10) if where != "post" else ([], "none")
@@ -478,89 +566,15 @@ def run(tier: str) -> int:
             reqs.append({"op": "rf", "pre": wire_of(c["pre"]), "post": wire_of(c["post"]), "crud": c["crud"]})
     try:
         answers = drv.ask(reqs)
-    except Infra:
-        raise
-    except Exception as e:
+    except Infra as e:
+        if ck.build_ok:
+            raise
         answers = [None] * len(reqs)
         ck.notes.append(f"model driver unavailable: {e}")
-        ck.build_ok = False
-
-    def impl_of(mode, c):
-        if mode == "unit":
-            return run_unit(c["ps"], env_mod)
-        if mode == "vf":
-            return run_vf(c["ps"], tracer, c["ret"])
-        return run_rf(c["pre"], c["post"], c["crud"], tracer)
-
-    def complaints(mode, c, got):
-        """the property's clauses on one observation"""
-        if got["c"].startswith("prepare-"):
-            return f"{mode}: a schema-valid predicate list was rejected at prepare time: {got.get('m')}" if mode != "unit" else None
-        if mode == "unit":
-            return judge(c["ps"], got, "unit")
-        if mode == "vf":
-            body = [e for e in got["trace"] if e != "preconditions"]
-            o = dict(got)
-            if expected(c["ps"]) == "continue" or (expected(c["ps"]) == "unconstrained" and body):
-                # the body ran: the outcome is the body's
-                o["c"] = "continue" if body or not c["ret"] else got["c"]
-                if got["c"] != "ok":
-                    return f"vf: preconditions say continue but the outcome is {got['c']} ({got.get('m')!r})"
-            bad = judge(c["ps"], o, "vf")
-            if bad:
-                return bad
-            if o["c"] != "continue" and body:
-                return f"vf: outcome {got['c']} decided by the preconditions, yet {body} were evaluated"
-            if o["c"] == "continue" and c["ret"] and body != ["locals", "return"]:
-                return f"vf: preconditions continue but the body trace is {body}"
-            return None
-        # rf
-        pre, post, trace = c["pre"], c["post"], got["trace"]
-        e_pre = expected(pre)
-        after_pre = trace[1:] if pre and trace[:1] == ["preconditions"] else trace
-        if pre and trace[:1] != ["preconditions"]:
-            return f"rf: preconditions were not the first thing evaluated ({trace[:3]})"
-        if e_pre not in ("continue", "unconstrained"):
-            bad = judge(pre, got, "rf preconditions")
-            if bad:
-                return bad
-            if after_pre:
-                return f"rf: preconditions decided ({got['c']}) but {after_pre} happened afterwards (cluster touched: {'api' in after_pre})"
-            return None
-        if e_pre == "unconstrained":
-            return None
-        if "locals" not in after_pre or "api" not in after_pre:
-            return f"rf: preconditions continue but the function did not proceed ({trace}, outcome {got['c']} {got.get('m')!r})"
-        if c["crud"] == "createRetry":
-            if got["c"] != "retry" or "postconditions" in trace or "return" in trace:
-                return f"rf: create path gave {got['c']} with trace {trace}"
-            return None
-        if post and "postconditions" not in trace:
-            return f"rf: postconditions were not evaluated ({trace})"
-        if "postconditions" in trace and "api" in trace[trace.index("postconditions"):]:
-            return "rf: the cluster was touched after the postconditions"
-        e_post = expected(post)
-        ran_return = "return" in trace
-        if e_post == "continue":
-            if got["c"] != "ok" or not ran_return:
-                return f"rf: postconditions continue but outcome {got['c']} ({got.get('m')!r}), trace {trace}"
-            return None
-        if e_post == "unconstrained":
-            return None
-        bad = judge(post, got, "rf postconditions")
-        if bad:
-            return bad
-        if ran_return:
-            return f"rf: postconditions decided ({got['c']}) but `return` was evaluated"
-        return None
 
     for (mode, c), ans in zip(cases, answers):
         ck.evaluated()
-        try:
-            got = impl_of(mode, c)
-        except Exception as e:  # nothing may escape
-            ck.violate({"mode": mode, "case": c}, f"exception escaped: {e!r}")
-            continue
+        got = impl.safe_run(mode, c)
         lists = [c["ps"]] if "ps" in c else [c["pre"], c["post"]]
         for ps in lists:
             ck.count(f"len:{len(ps)}")
@@ -577,26 +591,29 @@ def run(tier: str) -> int:
         nfalse = sum(1 for ps in lists for p in ps if p["a"] == "f")
         if nfalse >= 2 or any(p["a"] in ("nb", "fail") for ps in lists for p in ps):
             ck.nontriv(json.dumps([mode, [wire_of(ps) for ps in lists], c.get("crud"), c.get("ret")], sort_keys=True))
-        if mode != "unit" or len(c["ps"]) <= 4:
-            ck.sample({"mode": mode, "spec": [spec_of(ps) for ps in lists], "impl": {k: v for k, v in got.items() if k != "loc"}})
+        if 2 <= sum(len(ps) for ps in lists) <= 4:
+            ck.sample({"mode": mode, "spec": [spec_of(ps) for ps in lists],
+                       "impl": {k: v for k, v in got.items() if k != "loc"}}, limit=6)
 
-        bad = complaints(mode, c, got)
+        bad = impl.complaints(mode, c, got)
         if bad is not None:
-            key = "ps" if "ps" in c else ("pre" if expected(c["pre"]) != "continue" else "post")
-
-            def fails(sub, mode=mode, c=c, key=key):
-                c2 = dict(c)
-                c2[key] = sub
-                return complaints(mode, c2, impl_of(mode, c2)) is not None
             small = dict(c)
-            if len(c[key]) > 1:
-                small[key] = ddmin(c[key], fails)
-            got_small = impl_of(mode, small)
-            ck.violate({"mode": mode, "case": small, "spec": {k: spec_of(small[k]) for k in ("ps", "pre", "post") if k in small},
-                        "inputs": inputs_for(small[key]), "impl": got_small},
-                       complaints(mode, small, got_small) or bad)
+            if len(ck.violations) < 5:      # shrink the first few only
+                for key in ("ps", "pre", "post"):
+                    if key in small and len(small[key]) > 1:
+                        def fails(sub, mode=mode, key=key):
+                            c2 = dict(small)
+                            c2[key] = sub
+                            return impl.complaints(mode, c2, impl.safe_run(mode, c2)) is not None
+                        small[key] = ddmin(small[key], fails)
+            got_small = impl.safe_run(mode, small)
+            ck.violate({"mode": mode, "case": small,
+                        "spec": {k: spec_of(small[k]) for k in ("ps", "pre", "post") if k in small},
+                        "inputs": inputs_for(*[small[k] for k in ("ps", "pre", "post") if k in small]),
+                        "impl": got_small},
+                       impl.complaints(mode, small, got_small) or bad)
 
-        if ans is None or got["c"].startswith("prepare-"):
+        if ans is None or got["c"].startswith("prepare-") or got["c"] == "exception":
             continue
         if "error" in ans:
             raise Infra(f"driver rejected a request: {ans['error']}")
@@ -607,12 +624,13 @@ def run(tier: str) -> int:
         else:
             m = model_obs(ans["out"], BODY_VF if mode == "vf" else BODY_RF)
             mt, it = ans["trace"], got["trace"]
-            if not c.get("ps", c.get("pre")) and mt[:1] == ["preconditions"]:
-                mt = mt[1:]          # an empty list is compiled to "no program": nothing is evaluated
+            if not c.get("ps", c.get("pre")):
+                mt = [e for e in mt if e != "preconditions"]   # an empty list is compiled to "no program"
             if mode == "rf" and not c["post"]:
                 mt = [e for e in mt if e != "postconditions"]
             if not agree(m, got) or mt != it:
-                ck.disagree({"mode": mode, "case": {k: (wire_of(v) if isinstance(v, list) else v) for k, v in c.items()}},
+                ck.disagree({"mode": mode, "case": {k: (wire_of(v) if isinstance(v, list) else v) for k, v in c.items()},
+                             "spec": {k: spec_of(c[k]) for k in ("ps", "pre", "post") if k in c}},
                             {"out": m, "trace": mt}, {"out": got, "trace": it}, "function-outcome-and-trace")
 
     if tier == "thorough":
@@ -631,27 +649,13 @@ def run(tier: str) -> int:
 
 
 def replay(path: str) -> int:
-    import celpy
-    import koreo_util as ku
-    from koreo.cel.evaluation import evaluate_predicates
-    from koreo.cel.functions import koreo_function_annotations
-    from koreo.predicate_helpers import predicate_extractor
-
     data = json.load(open(path))
-    env_mod = (celpy, ku, predicate_extractor, evaluate_predicates, koreo_function_annotations)
-    tracer = Tracer()
+    impl = Impl()
     rc = 0
     for v in data.get("violations", []):
         mode, c = v["case"]["mode"], v["case"]["case"]
-        try:
-            if mode == "unit":
-                got = run_unit(c["ps"], env_mod)
-            elif mode == "vf":
-                got = run_vf(c["ps"], tracer, c["ret"])
-            else:
-                got = run_rf(c["pre"], c["post"], c["crud"], tracer)
-        except Exception as e:
-            got = {"c": f"exception {e!r}"}
-        print("replay:", json.dumps(v["case"].get("spec")), "->", json.dumps(got, default=str), "::", v["what"])
-        rc = 1
+        got = impl.safe_run(mode, c)
+        bad = impl.complaints(mode, c, got)
+        print("replay:", json.dumps(v["case"].get("spec")), "->", json.dumps(got, default=str), "::", bad)
+        rc = rc or (1 if bad else 0)
     return rc
